@@ -268,7 +268,10 @@ UNI_NUMS = ["\u0661\u0662\u0663", "\uff14\uff12", "\xa07", "7\u2003", "\u0967.\u
 UNI_TYPES = ["int", "float", "typing.Optional[int]", "typing.Union[int, str]", "typing.Union[float, str]", "decimal.Decimal", "fractions.Fraction",
              "typing.List[int]", "bool", "str", "typing.Literal['a', 'b']", "pathlib.PurePosixPath", "typing.Dict[str, int]", "LOAD", "STRLOAD",
              # user-defined subclasses of str (and of int): targets like any other scalar
-             "Tag", "NTag", "typing.Optional[Tag]", "typing.Union[int, Tag]", "typing.List[Tag]", "typing.Dict[Tag, int]", "Count"]
+             "Tag", "NTag", "typing.Optional[Tag]", "typing.Union[int, Tag]", "typing.List[Tag]", "typing.Dict[Tag, int]", "Count",
+             # temporal and other text-parsed targets: a numeric text is a number (of seconds, ...) in every carrier or in none
+             "datetime.timedelta", "datetime.datetime", "datetime.date", "datetime.time", "typing.Optional[datetime.timedelta]",
+             "typing.List[datetime.timedelta]", "typing.Union[datetime.timedelta, str]", "uuid.UUID", "complex"]
 
 
 def _uni_child(_job):
@@ -280,7 +283,9 @@ def _uni_child(_job):
     import typelib
     import pathlib
     from typelib import serdes
-    ns = {"typing": typing, "decimal": decimal, "fractions": fractions, "pathlib": pathlib}
+    import datetime
+    import uuid
+    ns = {"typing": typing, "decimal": decimal, "fractions": fractions, "pathlib": pathlib, "datetime": datetime, "uuid": uuid}
     exec("class Tag(str):\n    pass\nclass Count(int):\n    pass\nNTag = typing.NewType('NTag', Tag)\n", ns)
     bad = []
     n = 0
